@@ -149,6 +149,88 @@ def lexer_progress_rule(F, rep):
             if not reach_ret:
                 ADV.add(n)
                 changed = True
+    # methods that never move the cursor backwards: every write of `position` is `position += k` and every Lexer method they call is of that kind too
+    def pos_writes_ok(b, B):
+        for bl in b["blocks"]:
+            for st in bl["s"]:
+                if st[0] == "A" and is_pos_place(st[1]):
+                    rv = st[2]
+                    ok = False
+                    if rv[0] == "Use" and rv[1][0] in ("C", "M"):
+                        src = rv[1][1]
+                        if len(src) == 2 and isinstance(src[1], list) and src[1][0] == "." and src[1][1] == 0:
+                            defs = B.defs.get(src[0], [])
+                            if len(defs) == 1 and defs[0][2] == "assign" and defs[0][3][2][0] == "Bin" and defs[0][3][2][1] == "AddWithOverflow":
+                                a, c = defs[0][3][2][2], defs[0][3][2][3]
+                                ok = a[0] in ("C", "M") and is_pos_place(a[1]) and c[0] == "K" and len(c) > 3 and isinstance(c[3], int) and c[3] >= 0
+                    if not ok:
+                        return False
+        return True
+    NONDECR = {n for n, (b, B) in bodies.items() if pos_writes_ok(b, B)}
+    changed = True
+    while changed:
+        changed = False
+        for n in sorted(NONDECR):
+            b = bodies[n][0]
+            for bl in b["blocks"]:
+                if bl["t"][0] == "call":
+                    p = bl["t"][1]["f"].get("p") or ""
+                    if p in bodies and p not in NONDECR:
+                        NONDECR.discard(n)
+                        changed = True
+                        break
+
+    def changed_guard_edges(b, B, cs):
+        """edges of the loop that are taken only when the cursor differs from a copy of it saved earlier in the same iteration, in a loop whose calls never
+        move the cursor backwards: the cursor has then moved forward, i.e. the iteration made progress (`loop { let start = self.position; ...; if self.position
+        == start { break } }`)"""
+        blocks = b["blocks"]
+        for x in cs:
+            t = blocks[x]["t"]
+            if t[0] == "call":
+                p = t[1]["f"].get("p") or ""
+                if p in bodies and p not in NONDECR:
+                    return set()
+            for st in blocks[x]["s"]:
+                if st[0] == "A" and is_pos_place(st[1]):
+                    return set()          # the loop itself writes the cursor: left to the other progress rules
+
+        def through(op):
+            """(kind, local) of an operand followed through copies of locals"""
+            for _ in range(4):
+                if op[0] not in ("C", "M") or len(op[1]) != 1:
+                    return op
+                defs = B.defs.get(op[1][0], [])
+                if len(defs) == 1 and defs[0][2] == "assign" and defs[0][3][2][0] == "Use":
+                    nxt = defs[0][3][2][1]
+                    if nxt[0] in ("C", "M") and is_pos_place(nxt[1]):
+                        return ("POS", defs[0][0])          # a read of the cursor, in block defs[0][0]
+                    op = nxt
+                else:
+                    return op
+            return op
+        out = set()
+        for x in cs:
+            t = blocks[x]["t"]
+            if t[0] != "switch" or t[1][0] not in ("C", "M") or len(t[1][1]) != 1:
+                continue
+            defs = B.defs.get(t[1][1][0], [])
+            if len(defs) != 1 or defs[0][2] != "assign" or defs[0][3][2][0] != "Bin" or defs[0][3][2][1] not in ("Eq", "Ne"):
+                continue
+            a, c = through(defs[0][3][2][2]), through(defs[0][3][2][3])
+            if a[0] != "POS" or c[0] != "POS" or a[1] not in cs or c[1] not in cs or a[1] == c[1]:
+                continue
+            # one read is in the block of the test (the current cursor), the other in an earlier block of the loop (the saved one)
+            if x not in (a[1], c[1]):
+                continue
+            eq = defs[0][3][2][1] == "Eq"
+            for val, tgt in t[2]:
+                if (val == 0) == eq and tgt in cs:
+                    out.add((x, tgt))
+            if not eq and t[3] in cs:
+                out.add((x, t[3]))
+        return out
+
     nloops = 0
     for n, (b, B) in sorted(bodies.items()):
         prog = lp[n] | calls_adv(b)
@@ -166,7 +248,8 @@ def lexer_progress_rule(F, rep):
             key = "loop:%s#%d" % (short, k)
             k += 1
             rest = [x for x in comp if x not in prog]
-            rsucc = {x: [y for y in succ[x] if y in cs and y not in prog] for x in rest}
+            moved = changed_guard_edges(b, B, cs)
+            rsucc = {x: [y for y in succ[x] if y in cs and y not in prog and (x, y) not in moved] for x in rest}
             bad = [c for c in _sccs(rest, rsucc) if len(c) > 1 or c[0] in rsucc[c[0]]]
             lines = sorted({st[-1] for x in comp for st in blocks[x]["s"] if isinstance(st[-1], int)})
             where = "%s:%s" % (b["file"], lines[0] if lines else b["line"])
